@@ -66,6 +66,10 @@ func (m *Plugin) generateSingleFile(data *codegen.Data) error {
 		return err
 	}
 
+	// the template emits the root type itself (HasRoot): an untouched `type Resolver struct{}` from
+	// the previous run is not left-over source
+	rewriter.MarkEmptyStructCopied(data.Config.Resolver.Type)
+
 	for _, o := range data.Objects {
 		if o.HasResolvers() {
 			caser := cases.Title(language.English, cases.NoLower)
